@@ -79,7 +79,8 @@ def targetOk : Target → Bool
 def frameOk (f : FrameIdentifier) : Bool := !f.qubits.isEmpty && f.qubits.all qubitOk
 
 def invocationOk (w : WaveformInvocation) : Bool :=
-  wfName w.name && distinctKeys w.parameters && w.parameters.all fun kv => identName kv.1 && exprOk kv.2
+  wfName w.name && wfNameOk w.name && distinctKeys w.parameters &&
+    w.parameters.all fun kv => identName kv.1 && exprOk kv.2
 
 def i64Ok (v : Int) : Bool := decide (-9223372036854775808 ≤ v) && decide (v < 9223372036854775808)
 
